@@ -22,13 +22,22 @@ pub struct Scenario {
     pub changes: Vec<(String, String, String)>,
     pub reclaim: bool,
     pub order: usize,
+    /// how the files the interrupted snapshot starts from came about (see `HISTORIES`)
+    pub history: usize,
+    /// the interrupted snapshot names both databases and the second one is dirty too
+    pub both_dbs: bool,
 }
+
+/// Snapshot histories that precede the interrupted snapshot. The persisted dataset is read back
+/// from the disk afterwards, so a history only has to leave the keys `a`, `bb`, `ccc` alive.
+pub const HISTORIES: [&str; 5] = ["one-snapshot", "second-incremental", "after-reclaim", "tombstone-on-disk", "restarted"];
 
 pub fn scenarios(quick: bool) -> Vec<Scenario> {
     let base: Vec<(String, String)> = vec![("a".into(), val(3, 'a')), ("bb".into(), val(240, 'b')), ("ccc".into(), val(3, 'c'))];
     let mut out = vec![];
-    let sizes: &[usize] = if quick { &[3, 260] } else { &[3, 240, 260, 600] };
-    let mut change_sets: Vec<(String, Vec<(String, String, String)>)> = vec![];
+    let sizes: &[usize] = &[3, 240, 260, 600];
+    type Ch = (String, String, String);
+    let mut change_sets: Vec<(String, Vec<Ch>)> = vec![];
     change_sets.push(("none".into(), vec![]));
     for s in sizes {
         change_sets.push((format!("new-key-{}B", s), vec![("set".into(), "d".into(), val(*s, 'd'))]));
@@ -51,12 +60,48 @@ pub fn scenarios(quick: bool) -> Vec<Scenario> {
     change_sets.push(("remove-bb".into(), vec![("remove".into(), "bb".into(), "".into())]));
     change_sets.push(("remove-a+update-ccc".into(), vec![("remove".into(), "a".into(), "".into()), ("set".into(), "ccc".into(), val(9, 'C'))]));
     change_sets.push(("increment-new+update".into(), vec![("increment".into(), "n".into(), "".into()), ("set".into(), "a".into(), val(4, 'A'))]));
-    for (name, ch) in change_sets {
-        for reclaim in [false, true] {
-            let n_user = if reclaim { 4 } else { ch.len() };
-            let orders = if quick { 1.max(n_user.min(2)) } else { (1..=n_user.min(3)).product::<usize>().max(1) };
-            for order in 0..orders {
-                out.push(Scenario { name: format!("{} reclaim={} order={}", name, reclaim, order), before: base.clone(), changes: ch.clone(), reclaim, order });
+    let singles = change_sets.len();
+    if !quick {
+        // every pair of single changes on two different keys
+        let menu: Vec<(String, Ch)> = vec![
+            ("new-d-3B".into(), ("set".into(), "d".into(), val(3, 'd'))),
+            ("new-d-260B".into(), ("set".into(), "d".into(), val(260, 'd'))),
+            ("new-e-600B".into(), ("set".into(), "e".into(), val(600, 'e'))),
+            ("upd-a-3B".into(), ("set".into(), "a".into(), val(3, 'A'))),
+            ("upd-a-260B".into(), ("set".into(), "a".into(), val(260, 'A'))),
+            ("upd-bb-3B".into(), ("set".into(), "bb".into(), val(3, 'B'))),
+            ("upd-bb-600B".into(), ("set".into(), "bb".into(), val(600, 'B'))),
+            ("upd-ccc-same".into(), ("set".into(), "ccc".into(), val(3, 'c'))),
+            ("rm-a".into(), ("remove".into(), "a".into(), "".into())),
+            ("rm-bb".into(), ("remove".into(), "bb".into(), "".into())),
+            ("inc-n".into(), ("increment".into(), "n".into(), "".into())),
+        ];
+        for i in 0..menu.len() {
+            for j in (i + 1)..menu.len() {
+                if menu[i].1 .1 == menu[j].1 .1 {
+                    continue;
+                }
+                change_sets.push((format!("{}+{}", menu[i].0, menu[j].0), vec![menu[i].1.clone(), menu[j].1.clone()]));
+            }
+        }
+    }
+    for (ci, (name, ch)) in change_sets.iter().enumerate() {
+        for history in 0..HISTORIES.len() {
+            for both_dbs in [false, true] {
+                // the two-database snapshot is tried on the plain history only (quick) / on every history (thorough), single changes only
+                if both_dbs && (ci >= singles || (quick && history != 0)) {
+                    continue;
+                }
+                for reclaim in [false, true] {
+                    let n_user = if reclaim { 4 } else { ch.len() };
+                    let all_orders = (1..=n_user.min(3)).product::<usize>().max(1);
+                    // pairs and non-plain histories: first and last order only
+                    let orders: Vec<usize> = if (history != 0 && quick) || ci >= singles { if all_orders > 1 { vec![0, all_orders - 1] } else { vec![0] } } else { (0..all_orders).collect() };
+                    for order in orders {
+                        let tag = format!("{}{}", if history == 0 { "".to_string() } else { format!("@{}", HISTORIES[history]) }, if both_dbs { "@both-dbs" } else { "" });
+                        out.push(Scenario { name: format!("{}{} reclaim={} order={}", name, tag, reclaim, order), before: base.clone(), changes: ch.clone(), reclaim, order, history, both_dbs });
+                    }
+                }
             }
         }
     }
@@ -87,7 +132,48 @@ fn prepare(sc: &Scenario) -> Prepared {
     }
     admin.exec(&node, "snapshot false t|u");
     node.run_snapshot_queue();
-    Prepared { node, admin, tok }
+    let mut p = Prepared { node, admin, tok };
+    match HISTORIES[sc.history] {
+        "one-snapshot" => {}
+        // a second incremental snapshot: key records updated in place, values appended, dead space in the values file
+        "second-incremental" => {
+            p.tok.exec(&p.node, &format!("set a {}", val(5, 'x')));
+            p.tok.exec(&p.node, &format!("set bb {}", val(270, 'y')));
+            p.admin.exec(&p.node, "snapshot false t");
+            p.node.run_snapshot_queue();
+        }
+        // the files were rewritten by a reclaiming snapshot
+        "after-reclaim" => {
+            p.tok.exec(&p.node, &format!("set a {}", val(5, 'x')));
+            p.admin.exec(&p.node, "snapshot true t");
+            p.node.run_snapshot_queue();
+        }
+        // a removed key's record is on the disk
+        "tombstone-on-disk" => {
+            p.tok.exec(&p.node, "set gone soon");
+            p.admin.exec(&p.node, "snapshot false t");
+            p.node.run_snapshot_queue();
+            p.tok.exec(&p.node, "remove gone");
+            p.admin.exec(&p.node, "snapshot false t");
+            p.node.run_snapshot_queue();
+        }
+        // the node was restarted: what it holds in memory (addresses, states) comes from the loader
+        "restarted" => {
+            let dir = p.node.ctx.dir.clone();
+            p.node.shutdown();
+            let ctx = NodeCtx::new(dir, 500_000);
+            let node = Node::start(ctx, "n1:1", 1);
+            node.set_role(ClusterRole::Primary);
+            let mut admin = Session::new();
+            admin.exec(&node, &format!("auth {} {}", USER, PWD));
+            admin.exec(&node, "use-db t tok");
+            let mut tok = Session::new();
+            tok.exec(&node, "use-db t tok");
+            p = Prepared { node, admin, tok };
+        }
+        other => panic!("unknown history {}", other),
+    }
+    p
 }
 
 fn load_copy(dir: &std::path::Path) -> Result<std::sync::Arc<Databases>, String> {
@@ -172,7 +258,13 @@ pub fn run(run: &mut Run) {
             };
             p.tok.exec(&p.node, &line);
         }
-        p.admin.exec(&p.node, &format!("snapshot {} t", sc.reclaim));
+        if sc.both_dbs {
+            p.admin.exec(&p.node, "use-db u tok2");
+            p.admin.exec(&p.node, &format!("set z {}", val(7, 'Z')));
+            p.admin.exec(&p.node, "set y new-in-u");
+            p.admin.exec(&p.node, "use-db t tok");
+        }
+        p.admin.exec(&p.node, &format!("snapshot {} {}", sc.reclaim, if sc.both_dbs { "t|u" } else { "t" }));
         let n_user = if sc.reclaim {
             with_db(&p.node.dbs, "t", |db| dump_db(db).keys().filter(|k| !k.starts_with('$')).count()).unwrap_or(0)
         } else {
@@ -198,50 +290,99 @@ pub fn run(run: &mut Run) {
             let after_op = if k == 0 { "nothing".to_string() } else { op_class(&ops[k - 1]) };
             let before_op = if k == ops.len() { "end".to_string() } else { op_class(&ops[k]) };
             crate::util::set_context(&format!("start-up on the directory left by a kill: {} [{}] crash after {} before {} || scenario `{}`, after {} of {} system calls", if sc.reclaim { "reclaim" } else { "incremental" }, sc.name.split(" reclaim=").next().unwrap_or(""), after_op, before_op, sc.name, k, ops.len()));
-            let mut report = |clause: &str, detail: String| {
+            let kind = if sc.reclaim { "reclaim" } else { "incremental" };
+            let change_name = sc.name.split(" reclaim=").next().unwrap_or("").split('@').next().unwrap_or("").to_string();
+            // `class`: what the shape says between the brackets. Clauses about the whole directory name the change set;
+            // clauses about one key name the key's role in the interrupted snapshot, the size class of the value
+            // being written and what was loaded instead (so that a finding is keyed by what goes wrong, not by the
+            // scenario it was first seen in).
+            let mut report = |clause: &str, class: String, detail: String| {
                 run.violate(Violation {
                     clause: clause.to_string(),
-                    shape: format!("{} [{}] crash after {} before {}", if sc.reclaim { "reclaim" } else { "incremental" }, sc.name.split(" reclaim=").next().unwrap_or(""), after_op, before_op),
+                    shape: format!("{} [{}] crash after {} before {}", kind, class, after_op, before_op),
                     detail: format!("scenario `{}`, crash after {} of {} system calls ({:?}): {}", sc.name, k, ops.len(), ops.get(k.saturating_sub(1)), detail),
                     replay: json!({"engine":"crash","property":"C11","scenario":sc.name,"crash_after_syscalls":k,"syscalls":ops}),
                 });
             };
             match load_copy(&dir) {
-                Err(e) => report("startup-panic", e),
+                Err(e) => report("startup-panic", change_name.clone(), e),
                 Ok(dbs) => {
-                    // untouched database u: exactly as before
-                    let mut only_u = BTreeMap::new();
-                    only_u.insert("u".to_string(), disk0["u"].clone());
-                    if let Err(e) = compare_loaded(&dbs, &only_u) {
-                        report("neighbour-database-changed", e);
-                    }
-                    match snap_state_of(&dbs, "t") {
-                        None => report("database-missing", "database t not loaded".into()),
-                        Some(got) => {
-                            let d0 = &disk0["t"].live;
-                            let d1 = &disk1["t"].live;
-                            let mut keys: std::collections::BTreeSet<&String> = d0.keys().collect();
-                            keys.extend(d1.keys());
-                            keys.extend(got.live.keys());
-                            for key in keys {
-                                if key == "$connections" {
-                                    continue;
-                                }
-                                let g = got.live.get(key);
-                                if g != d0.get(key) && g != d1.get(key) {
-                                    let short = |x: Option<&(String, i32)>| x.map(|(v, ver)| format!("({:?}…{}B, v{})", v.chars().take(6).collect::<String>(), v.len(), ver)).unwrap_or("absent".into());
-                                    let clause = if d0.get(key) == d1.get(key) {
-                                        "untouched-key-changed"
-                                    } else if g.is_none() {
-                                        "persisted-key-missing"
-                                    } else {
-                                        "value-never-stored"
-                                    };
-                                    report(clause, format!("key {}: loaded {}, on disk before {}, being written {}", key, short(g), short(d0.get(key)), short(d1.get(key))));
-                                }
+                    for dbname in ["u", "t"] {
+                        if dbname == "u" && !sc.both_dbs {
+                            // untouched database u: exactly as before
+                            let mut only_u = BTreeMap::new();
+                            only_u.insert("u".to_string(), disk0["u"].clone());
+                            if let Err(e) = compare_loaded(&dbs, &only_u) {
+                                report("neighbour-database-changed", change_name.clone(), e);
                             }
-                            if got.id != disk0["t"].id || got.strategy != disk0["t"].strategy {
-                                report("metadata-changed", format!("id/strategy {}/{} -> {}/{}", disk0["t"].id, disk0["t"].strategy, got.id, got.strategy));
+                            continue;
+                        }
+                        let dbtag = if dbname == "t" { "" } else { "second-db " };
+                        match snap_state_of(&dbs, dbname) {
+                            None => report("database-missing", format!("{}{}", dbtag, change_name), format!("database {} not loaded", dbname)),
+                            Some(got) => {
+                                let d0 = &disk0[dbname].live;
+                                let d1 = &disk1[dbname].live;
+                                let mut keys: std::collections::BTreeSet<&String> = d0.keys().collect();
+                                keys.extend(d1.keys());
+                                keys.extend(got.live.keys());
+                                for key in keys {
+                                    if key == "$connections" {
+                                        continue;
+                                    }
+                                    let g = got.live.get(key);
+                                    if g != d0.get(key) && g != d1.get(key) {
+                                        let short = |x: Option<&(String, i32)>| x.map(|(v, ver)| format!("({:?}…{}B, v{})", v.chars().take(6).collect::<String>(), v.len(), ver)).unwrap_or("absent".into());
+                                        let clause = if d0.get(key) == d1.get(key) {
+                                            "untouched-key-changed"
+                                        } else if g.is_none() {
+                                            "persisted-key-missing"
+                                        } else {
+                                            "value-never-stored"
+                                        };
+                                        let role = if key.starts_with('$') {
+                                            "system-key"
+                                        } else {
+                                            match (d0.get(key), d1.get(key)) {
+                                                (None, Some(_)) => "new-key",
+                                                (Some(_), None) => "removed-key",
+                                                (a, b) if a == b => "untouched-key",
+                                                _ => "updated-key",
+                                            }
+                                        };
+                                        let size = match d1.get(key) {
+                                            None => "-",
+                                            Some((v, _)) if v.len() < 250 => "small",
+                                            Some(_) => "large",
+                                        };
+                                        let loaded = match g {
+                                            None => "absent".to_string(),
+                                            Some((v, ver)) => {
+                                                let what = if !v.is_empty() && v.bytes().all(|b| b == 0) {
+                                                    "zeros"
+                                                } else if d0.get(key).map(|x| &x.0 == v).unwrap_or(false) {
+                                                    "old-value"
+                                                } else if d1.get(key).map(|x| &x.0 == v).unwrap_or(false) {
+                                                    "new-value"
+                                                } else {
+                                                    "other-bytes"
+                                                };
+                                                let whichver = if d1.get(key).map(|x| x.1 == *ver).unwrap_or(false) {
+                                                    "new-version"
+                                                } else if d0.get(key).map(|x| x.1 == *ver).unwrap_or(false) {
+                                                    "old-version"
+                                                } else {
+                                                    "other-version"
+                                                };
+                                                format!("{}/{}", what, whichver)
+                                            }
+                                        };
+                                        report(clause, format!("{}{} {} -> {}", dbtag, role, size, loaded), format!("key {}: loaded {}, on disk before {}, being written {}", key, short(g), short(d0.get(key)), short(d1.get(key))));
+                                    }
+                                }
+                                if got.id != disk0[dbname].id || got.strategy != disk0[dbname].strategy {
+                                    report("metadata-changed", format!("{}{}", dbtag, change_name), format!("id/strategy {}/{} -> {}/{}", disk0[dbname].id, disk0[dbname].strategy, got.id, got.strategy));
+                                }
                             }
                         }
                     }
